@@ -14,7 +14,8 @@
 (***************************************************************************)
 EXTENDS Include, TLC, Json, SequencesExt
 
-CONSTANTS MaxOps,      \* length of the generated histories
+CONSTANTS Lim,         \* include depth limit the shared loader is configured with (N + 1 = effectively none)
+          MaxOps,      \* length of the generated histories
           InitMode,    \* "any" (every disk over Lists) | "menu" (hand-picked shapes)
           EditMode     \* "any" | "menu"
 
@@ -40,7 +41,7 @@ ResJson(r) == [loaded |-> SetToSeq1(r.loaded), order |-> r.order, diags |-> SetT
 Init == /\ IF InitMode = "any" THEN disk \in [Files -> Lists] ELSE disk \in MenuDisks
         /\ ver = [f \in Files |-> 1]
         /\ cache = [f \in Files |-> 0]
-        /\ h = << [op |-> "init", disk |-> disk] >>
+        /\ h = << [op |-> "init", disk |-> disk, lim |-> Lim] >>
 
 More == Len(h) <= MaxOps
 
@@ -48,8 +49,8 @@ More == Len(h) <= MaxOps
    file loaded below the root ends up cached at its current version. *)
 Load(r) ==
     /\ More
-    /\ LET res == Resolve(disk, r, N + 1) IN
-       /\ h' = Append(h, [op |-> "load", file |-> r, expect |-> ResJson(res)])
+    /\ LET res == Resolve(disk, r, Lim) IN
+       /\ h' = Append(h, [op |-> "load", file |-> r, expect |-> ResJson(res), expect2 |-> ResJson(Resolve(disk, r, Lim + 1))])
        /\ cache' = [f \in Files |-> IF f \in res.loaded \ {r} THEN ver[f] ELSE cache[f]]
     /\ UNCHANGED <<disk, ver>>
 
